@@ -238,24 +238,26 @@ def ser_line(dtg, t, x=None, key=None):
 
 
 class Tags:
-    """stage functions of qats.ts replaced by the tag functions of Qats.Driver.Pipeline.tagStages"""
+    """stage functions of qats.ts replaced by the tag functions of Qats.Driver.Pipeline.tagStages (positional or keyword calls)"""
 
     def __enter__(self):
         import qats.ts as m
         self.m, self.saved = m, {}
 
-        def taper(x, window="tukey", alpha=0.001):
+        def taper(x, *a, **kw):
             return np.asarray(x, dtype=float) + 1.0, 1.0
 
-        def filt(x, dt, *fc):
+        def filt(x, *a, **kw):
+            dt = kw.get("dt", a[0] if a else None)
             return 2.0 * np.asarray(x, dtype=float) + dt
 
-        def smooth(x, window_len=11, window="rectangular", mode="same"):
+        def smooth(x, *a, **kw):
             return np.asarray(x, dtype=float) ** 2
         for name, fn in [("taper", taper), ("lowpass", filt), ("highpass", filt), ("bandpass", filt), ("bandblock", filt),
                          ("smooth", smooth)]:
-            self.saved[name] = getattr(m, name)
-            setattr(m, name, fn)
+            if hasattr(m, name):
+                self.saved[name] = getattr(m, name)
+                setattr(m, name, fn)
         return self
 
     def __exit__(self, *a):
@@ -263,73 +265,97 @@ class Tags:
             setattr(self.m, k, v)
 
 
+WRITERS = [("ts", "qats.io.direct_access", "write_ts_data"), ("dat", "qats.io.other", "write_dat_data"),
+           ("h5", "qats.io.sima_h5", "write_data"), ("pkl", "qats.io.pickle_format", "write_data")]
+
+
 class Tracer:
-    """observes the steps of TsDB.export; the writers are replaced by recorders (no file is written)"""
+    """Observes TsDB.export. *Hard* observations (compared strictly with the model): the writer that is called and the
+    records it is handed (the four writer functions are replaced by recorders wherever they are referenced, so no file is
+    written), and the exception. *Soft* observations (internal steps, reported in the evidence when they differ from the model's
+    but not a broken tie by themselves, so that extracting / inlining helpers stays harmless): calls of `os.makedirs`, `getm`,
+    `_make_export_friendly_names`, `_check_time_arrays`, `create_common_time`, `TimeSeries.get`."""
 
     def __init__(self):
         self.trace = []
         self.in_cct = 0
+        self.undo = []
+
+    def _set(self, obj, name, val):
+        old = obj.__dict__[name] if isinstance(obj, type) else getattr(obj, name)
+        self.undo.append((obj, name, old))
+        setattr(obj, name, val)
 
     def __enter__(self):
+        import importlib
+        import sys
         import qats.tsdb as m
         import qats.ts as mts
         T, S = m.TsDB, mts.TimeSeries
-        self.m, self.T, self.S = m, T, S
-        self.saved = dict(getm=T.getm, fr=T._make_export_friendly_names, chk=T.__dict__["_check_time_arrays"],
-                          cct=T.create_common_time, get=S.get, makedirs=os.makedirs,
-                          w_ts=m.write_ts_data, w_dat=m.write_dat_data, w_h5=m.write_sima_h5_data, w_pkl=m.write_pickle_data)
-        sv, tr, me = self.saved, self.trace, self
+        tr, me = self.trace, self
 
-        def getm(self_, *a, **k):
-            if not me.in_cct:
-                tr.append("select")
-            return sv["getm"](self_, *a, **k)
+        def wrap_method(cls, name, token, nested=False, is_cct=False):
+            if name not in cls.__dict__:
+                return
+            raw = cls.__dict__[name]
+            fn = raw.__func__ if isinstance(raw, (staticmethod, classmethod)) else raw
 
-        def fr(self_, *a, **k):
-            tr.append("friendly")
-            return sv["fr"](self_, *a, **k)
-
-        def chk(*a, **k):
-            if not me.in_cct:
-                tr.append("timecheck")
-            return sv["chk"].__func__(*a, **k)
-
-        def cct(self_, *a, **k):
-            tr.append("commontime")
-            me.in_cct += 1
-            try:
-                return sv["cct"](self_, *a, **k)
-            finally:
-                me.in_cct -= 1
-
-        def get(self_, *a, **k):
-            tr.append("process")
-            return sv["get"](self_, *a, **k)
+            def w(*a, **k):
+                if is_cct:
+                    tr.append(token)
+                    me.in_cct += 1
+                    try:
+                        return fn(*a, **k)
+                    finally:
+                        me.in_cct -= 1
+                if not (nested and me.in_cct):
+                    tr.append(token)
+                return fn(*a, **k)
+            self._set(cls, name, staticmethod(w) if isinstance(raw, staticmethod) else w)
+        wrap_method(T, "getm", "select", nested=True)
+        wrap_method(T, "_make_export_friendly_names", "friendly")
+        wrap_method(T, "_check_time_arrays", "timecheck", nested=True)
+        wrap_method(T, "create_common_time", "commontime", is_cct=True)
+        wrap_method(S, "get", "process")
+        real_makedirs = os.makedirs
 
         def makedirs(*a, **k):
             tr.append("mkdirs")
-            return sv["makedirs"](*a, **k)
+            return real_makedirs(*a, **k)
+        self._set(os, "makedirs", makedirs)
 
-        def writer(ext, has_time):
-            def w(path, *a, **k):
-                data = a[1] if has_time else a[0]
+        def recorder(ext):
+            def w(*a, **k):
+                data = k.get("data")
+                if data is None:
+                    data = [v for v in a if isinstance(v, dict)][0]
                 tr.append("open:" + ext)
                 for name, (t, x) in data.items():
                     tr.append(("write", name, np.asarray(t, dtype=float), np.asarray(x, dtype=float)))
             return w
-        T.getm, T._make_export_friendly_names, T._check_time_arrays = getm, fr, staticmethod(chk)
-        T.create_common_time, S.get = cct, get
-        os.makedirs = makedirs
-        m.write_ts_data, m.write_dat_data = writer("ts", True), writer("dat", True)
-        m.write_sima_h5_data, m.write_pickle_data = writer("h5", False), writer("pkl", True)
+        for ext, modname, fname in WRITERS:
+            mod = importlib.import_module(modname)
+            orig = getattr(mod, fname)
+            rec = recorder(ext)
+            # every reference to the writer inside the package (defining module, `from … import … as …` copies)
+            for mn, mo in list(sys.modules.items()):
+                if mn == "qats" or mn.startswith("qats."):
+                    for an, av in list(vars(mo).items()):
+                        if av is orig:
+                            self._set(mo, an, rec)
         return self
 
     def __exit__(self, *a):
-        sv, T, S, m = self.saved, self.T, self.S, self.m
-        T.getm, T._make_export_friendly_names, T._check_time_arrays = sv["getm"], sv["fr"], sv["chk"]
-        T.create_common_time, S.get = sv["cct"], sv["get"]
-        os.makedirs = sv["makedirs"]
-        m.write_ts_data, m.write_dat_data, m.write_sima_h5_data, m.write_pickle_data = sv["w_ts"], sv["w_dat"], sv["w_h5"], sv["w_pkl"]
+        for obj, name, old in reversed(self.undo):
+            setattr(obj, name, old)
+
+
+SOFT = ("mkdirs", "select", "friendly", "timecheck", "commontime", "process")
+
+
+def hard(tr):
+    """the part of a trace that is compared strictly: writer, records, exception"""
+    return [t for t in tr if not (isinstance(t, str) and t in SOFT)]
 
 
 def parse_model_trace(out):
@@ -416,16 +442,30 @@ def clause_cct(inp, ct=None):
 
 
 def clause_names(inp):
-    """kind 'names': distinct, none lost"""
-    from qats import TsDB
+    """kind 'names': distinct, none lost. Observed through `_make_export_friendly_names`; if that helper is gone, through the names
+    `export` hands to the writer for series with one time array registered under the given keys."""
+    from qats import TsDB, TimeSeries
     fails = []
+    keys = inp["keys"]
+    fn = getattr(TsDB, "_make_export_friendly_names", None)
     try:
-        r = TsDB()._make_export_friendly_names(OrderedDict((k, None) for k in inp["keys"]), keep_basename=inp["basename"])
-        got = list(r.keys())
+        if fn is not None:
+            got = list(TsDB()._make_export_friendly_names(OrderedDict((k, None) for k in keys), keep_basename=inp["basename"]).keys())
+        else:
+            db = TsDB()
+            t = np.arange(3.0)
+            for k in keys:
+                db.register[k] = TimeSeries(os.path.basename(k), t, t)
+                db.register_parent[k] = None
+                db.register_indices[k] = None
+                db.register_keys.append(k)
+            with Tracer() as trc:
+                quiet(db.export, os.path.join(tempfile.gettempdir(), "qv07_never_written.pkl"), basename=inp["basename"])
+                got = [w[1] for w in trc.trace if isinstance(w, tuple)]
     except Exception as e:
         return None, "err " + err_kind(e), fails
-    if len(got) != len(inp["keys"]) or len(set(got)) != len(got):
-        fails.append(("export-friendly names are distinct and as many as the selected series", len(inp["keys"]), got))
+    if len(got) != len(keys) or len(set(got)) != len(got):
+        fails.append(("export-friendly names are distinct and as many as the selected series", len(keys), got))
     return got, "ok " + hxlist(got), fails
 
 
@@ -462,7 +502,11 @@ def impl_trace(inp, d):
             quiet(db.export, target, exist_ok=flags["existok"], basename=flags["base"], force_common_time=flags["force"], **kw)
         except Exception as e:
             trc.trace.append("raise:" + err_kind(e))
-        return list(trc.trace)
+        tr = list(trc.trace)
+    # the directory of the target: observed on the file system, not through the call that creates it
+    if flags["mkdir"] and os.path.isdir(sub) and "mkdirs" not in tr:
+        tr.insert(0, "mkdirs")
+    return tr
 
 
 def clause_trace(itrace):
@@ -521,16 +565,22 @@ def corr_check(chk, drv, rng, N):
                                                       "none" if all(d is None for d in dtgs) else ("same" if len(set(dtgs)) == 1 else "mixed")))
         if len(times) > 1 or kw:
             chk.nontriv(("check", repr(inp)))
-        try:
-            tc = TsDB._check_time_arrays(cont, **kw)
-            dref = "-" if tc["dtg_ref"] is None else str(dtgs[0])
-            rec = "-" if tc["common"] is None else ",".join(rat(float(v)) for v in tc["common"])
-            im = "ok common=%d dtgdef=%d dtgref=%s rec=%s devs=%s" % (tc["is_common"], tc["dtg_defined"], dref, rec,
-                                                                      ",".join(tc["deviations"].keys()))
-        except Exception as e:
-            im = "err " + err_kind(e)
-        if out.strip() != im.strip():
-            chk.disagree("check", inp, out, im)
+        chkfn = getattr(TsDB, "_check_time_arrays", None)
+        if chkfn is None:
+            # the private helper is gone (renamed / inlined): the decision is still compared through is_common_time below
+            chk.dist("check: _check_time_arrays not found, decision compared through is_common_time only")
+            im = "ok (not observed)" if out.startswith("ok") else out
+        else:
+            try:
+                tc = chkfn(cont, **kw)
+                dref = "-" if tc["dtg_ref"] is None else str(dtgs[0])
+                rec = "-" if tc["common"] is None else ",".join(rat(float(v)) for v in tc["common"])
+                im = "ok common=%d dtgdef=%d dtgref=%s rec=%s devs=%s" % (tc["is_common"], tc["dtg_defined"], dref, rec,
+                                                                          ",".join(tc["deviations"].keys()))
+            except Exception as e:
+                im = "err " + err_kind(e)
+            if out.strip() != im.strip():
+                chk.disagree("check", inp, out, im)
         if im.startswith("ok") and len(chk.samples) < 2:
             chk.sample(dict(stream="check", input=inp, reply=im))
         # the public face of the same decision; partial theorem, measured side: on a common lattice (or identical arrays) a
@@ -677,8 +727,13 @@ def corr_export(chk, drv, rng, N, root):
         mt = parse_model_trace(out) if out.startswith("ok") else [out]
         last = itrace[-1] if itrace else ""
         chk.dist("trace:%s %s" % (fam, last if isinstance(last, str) and last.startswith("raise") else "written"))
-        if not traces_equal(mt, itrace):
+        if not traces_equal(hard(mt), hard(itrace)) or ("mkdirs" in mt) != ("mkdirs" in itrace):
             chk.disagree("export-trace", inp, show_trace(mt), show_trace(itrace))
+        elif not traces_equal(mt, itrace):
+            chk.dist("trace: internal steps differ from the model's (outcome, records and directory creation agree)")
+            if not any("internal steps" in n for n in chk.notes):
+                chk.notes.append("export-trace: internal steps differ from the model's, e.g. model %s / observed %s" % (
+                    [t for t in show_trace(mt) if t in SOFT], [t for t in show_trace(itrace) if t in SOFT]))
         # clauses on the observed trace: nothing touches the target before a raise; what is written has one time array
         for oracle, expected, observed in clause_trace(itrace):
             chk.fail(oracle, inp, expected, observed)
